@@ -124,7 +124,8 @@ def build(d):
 WORDS = ["a", "Bc", "d e", "x", "yz", "&", "<", "a&b", "c<d", "-->", "e-->f", "&amp;", "é", "日本", " ", "  ", "\t", "q ", " r",
          "1", "42", "f>g", "<3",
          # spaces that are not XML white space (kept as they are, wherever they stand), references spelled out in the text
-         "\u00a0", "n\u00a0b", "\u3000\u3000w", "v\u2003", "&#60;b&#62;", "&#x41;", "&nbsp;"]
+         # (always next to a letter: whether a line of nothing but such spaces is a line of text is not decided here)
+         "n\u00a0b", "\u00a0z", "\u3000\u3000w", "v\u2003", "&#60;b&#62;", "&#x41;", "&nbsp;"]
 WORDS_NL = ["\n", " \n ", "s\nt"]        # only under xml:space=default (collapsed by the ISD)
 
 
@@ -315,9 +316,16 @@ def random_doc(rng, rich=True):
     # (milliseconds stay below 2^31); half of the files begin a few seconds before the hour count gains a digit
     t = Fraction(rng.choice([0, 3590, 35990, 359990, 2000000, 360000 * 3 - 10]) + rng.randint(0, 20)) if rng.random() < 0.5 else \
         Fraction(rng.choice([36000, 360000, 360000]) - rng.randint(1, 8))
+    if t >= 30000:
+      # the rest of the document would put the common denominator out of TLC's reach this far into the timeline
+      body = []
+      for r in regions:
+        r.pop("b", None)
+        r.pop("e", None)
     many = []
     for k in range(rng.randint(25, 70)):
-      d = Fraction(rng.randint(1, 4000), 1000)
+      # (far into the timeline the grid is half seconds: milliseconds x denominator must stay below 2^31 for TLC)
+      d = Fraction(rng.randint(1, 4000), 1000) if t < 30000 else Fraction(rng.randint(1, 8), 2)
       words = " ".join(rng.choice(["lorem", "ipsum", "dolor", "sit", "amet", "x", "consectetur"]) for _ in range(rng.choice([1, 3, 8, 40])))
       kids = [{"k": "span", "sp": "", "st": rng.choice([{}, {}, {"fw": "bold"}, {"col": "red"}]), "kids": [{"k": "t", "s": "%d %s" % (k, words)}]}]
       for _ in range(rng.choice([0, 0, 1, 6, 14])):
